@@ -32,6 +32,9 @@ func scnRenewRecipes(ctx *check.JobCtx) {
 	p.Providers = 4
 	p.BlockReward = 1000
 	p.PoorSP = mode == "debt-release" || mode == "debt-expire"
+	if mode == "tiny-reduce" {
+		p.Providers = 2 // no spare provider: a silent replica can only be given up
+	}
 	if mode == "unaligned" {
 		rewardRegime(&p)
 		if ctx.Job.Seed%2 == 0 {
@@ -82,6 +85,71 @@ func scnRenewRecipes(ctx *check.JobCtx) {
 		}
 		w.EndBlock()
 		w.Case("recipe:%s", mode)
+		for round := 0; round < 12 && !w.Halted(); round++ {
+			next := l.nextScheduled()
+			if next == 0 || int64(next) > w.C.Height+40000 {
+				break
+			}
+			w.AdvanceTo(int64(next) + 1)
+		}
+		for _, sp := range l.SP {
+			w.Claim(sp.Acct)
+		}
+		w.EndBlock()
+		w.Sample("recipe %s: %s", mode, traceSummary(w))
+		w.Finish()
+		return
+	}
+	if mode == "tiny-reduce" {
+		// a tiny file (the refund for a given-up replica truncates to zero), two replicas, one provider silent, no spare
+		_, oid := w.Store(world.StoreReq{Owner: o.Id, Gateway: g, DataId: did, CommitId: did, Duration: 3600, Replica: 2, Timeout: int32(20 + r.Intn(30)), Size: uint64(1 + r.Intn(100))})
+		if od, ok := w.Cur.Orders[oid]; ok && len(od.Shards) > 0 {
+			sh := w.Cur.Shards[od.Shards[r.Intn(len(od.Shards))]]
+			if pr := w.ProviderByAddr(sh.Sp); pr != nil {
+				w.Complete(pr.Acct, nil, oid, sh.Size_)
+			}
+		}
+		w.EndBlock()
+		w.Case("recipe:%s", mode)
+		for round := 0; round < 40 && !w.Halted(); round++ {
+			next := l.nextScheduled()
+			if next == 0 || int64(next) > w.C.Height+40000 {
+				break
+			}
+			w.AdvanceTo(int64(next) + 1)
+		}
+		w.Advance(5)
+		w.Sample("recipe %s: %s", mode, traceSummary(w))
+		w.Finish()
+		return
+	}
+	if mode == "fp-renewed" {
+		// two committed versions, the latest one renewed (once or twice), then force-pushed
+		replica = int32(1 + r.Intn(2))
+		_, o1 := w.Store(world.StoreReq{Owner: o.Id, Gateway: g, DataId: did, CommitId: did, Duration: d1, Replica: replica, Timeout: 500, Size: size})
+		w.CompleteAll(o1)
+		w.EndBlock()
+		md := w.Cur.Metas[did]
+		_, o2 := w.Store(world.StoreReq{Owner: o.Id, Gateway: g, DataId: did, CommitId: md.Commit + "|" + (did[:28] + "-fpv2xxxxxxxxxxxx")[:36], Duration: d1, Replica: replica, Timeout: 500, Size: size, Alias: md.Alias})
+		if o2 != 0 {
+			w.CompleteAll(o2)
+		}
+		w.EndBlock()
+		w.Advance(int64(10 + r.Intn(300)))
+		w.Renew(o.Id, nil, g.Acct, "", 3600+uint64(r.Intn(2000)), 300, nil, did)
+		if r.Intn(2) == 0 {
+			w.EndBlock()
+			w.Renew(o.Id, nil, g.Acct, "", 3600+uint64(r.Intn(2000)), 300, nil, did)
+		}
+		w.EndBlock()
+		w.Advance(int64(10 + r.Intn(300)))
+		md = w.Cur.Metas[did]
+		_, o3 := w.Store(world.StoreReq{Owner: o.Id, Gateway: g, DataId: did, CommitId: md.Commit + "|" + (did[:28] + "-fpv3xxxxxxxxxxxx")[:36], Duration: 3600, Replica: replica, Timeout: 500, Size: size, Operation: 2, Alias: md.Alias})
+		if o3 != 0 {
+			w.CompleteAll(o3)
+		}
+		w.EndBlock()
+		w.Case("recipe:%s:replica=%d", mode, replica)
 		for round := 0; round < 12 && !w.Halted(); round++ {
 			next := l.nextScheduled()
 			if next == 0 || int64(next) > w.C.Height+40000 {
@@ -164,6 +232,22 @@ func scnRenewRecipes(ctx *check.JobCtx) {
 					w.CompleteAll(id)
 				}
 			}
+		}
+	case "double-migrate":
+		// the same shard is handed over twice within one paid period (no renewal)
+		for k := 0; k < 2; k++ {
+			for _, sh := range sortedShards(w.Cur) {
+				if sh.Status == ShardCompleted {
+					if pr := w.ProviderByAddr(sh.Sp); pr != nil {
+						w.Migrate(pr.Acct, did)
+						break
+					}
+				}
+			}
+			w.EndBlock()
+			w.CompleteAll(oid)
+			w.EndBlock()
+			w.Advance(int64(100 + r.Intn(900)))
 		}
 	case "migrated":
 		renew(3600 + uint64(r.Intn(3000)))
